@@ -2,7 +2,8 @@
 import numpy as np
 
 from pymbolic.mapper.stringifier import (
-    PREC_CALL, PREC_LOGICAL_OR, PREC_NONE, PREC_PRODUCT, StringifyMapper)
+    PREC_CALL, PREC_LOGICAL_OR, PREC_NONE, PREC_POWER, PREC_PRODUCT,
+    StringifyMapper)
 
 
 __copyright__ = "Copyright (C) 2014 Matt Wala"
@@ -28,9 +29,20 @@ THE SOFTWARE.
 """
 
 
+class _CodegenStringifyMapper(StringifyMapper):
+    def map_power(self, expr, enclosing_prec, *args, **kwargs):
+        # '**' is right-associative in Python and Fortran, so a base that is
+        # itself a power needs parentheses: (x**2)**3 is not x**2**3.
+        return self.parenthesize_if_needed(
+                self.format("%s**%s",
+                    self.rec(expr.base, PREC_CALL, *args, **kwargs),
+                    self.rec(expr.exponent, PREC_POWER, *args, **kwargs)),
+                enclosing_prec, PREC_POWER)
+
+
 # {{{ fortran
 
-class FortranExpressionMapper(StringifyMapper):
+class FortranExpressionMapper(_CodegenStringifyMapper):
     """Converts expressions to Fortran code."""
 
     def __init__(self, name_manager):
@@ -132,7 +144,7 @@ class FortranExpressionMapper(StringifyMapper):
 
 # {{{ python
 
-class PythonExpressionMapper(StringifyMapper):
+class PythonExpressionMapper(_CodegenStringifyMapper):
     """Converts expressions to Python code."""
 
     def __init__(self, name_manager, function_registry,
